@@ -22,8 +22,9 @@ def get_fn(w, rep, modname, fn, key, rule="C15.API"):
     return f, mod
 
 
-def norm_clamp_parts(cells):
-    """cells_i = if_else(L < n, L u_i / n, u_i) + rest_i with one condition, n = |u|.  -> (L, u list, rests) or None."""
+def norm_clamp_parts(cells, why=None):
+    """cells_i = if_else(L < n, L u_i / n, u_i) + rest_i with one condition, n = |u|.  -> (L, u list, rests) or None.
+    why: optional list receiving the reason of a None ("reversed" when the limited branch is -L u/n)."""
     us, As, rests, cond = [], [], [], None
     for p in cells:
         ites = [a for a in p.atoms() if a.kind == "ite"]
@@ -59,6 +60,8 @@ def norm_clamp_parts(cells):
         return None
     for A, u in zip(As, us):
         if decide(A, cm.pdiv(L * u, n)) != EQUAL:
+            if why is not None and u.t and decide(A, cm.pdiv((L * u).scale(-1), n)) == EQUAL:
+                why.append("reversed")
             return None
     return L, us, rests
 
@@ -125,7 +128,11 @@ def demanded_force(w, rep, modname, fn, key, RA):
     nT = assign_ites(O["nT"], g)
     zB = w.it.mat_get(R, (slice(0, 3), 2))
     v = [canon(p) for p in cm.ew(zB, nT, cm.pmul).flat()]
-    return f, I, O, norm_clamp_parts(v), mod, W
+    why = []
+    parts = norm_clamp_parts(v, why)
+    if parts is None and "reversed" in why:
+        parts = "reversed"
+    return f, I, O, parts, mod, W
 
 
 def check_position_loops2(w, rep, RULE="C15.clamp", RA="C15.API"):
@@ -136,7 +143,9 @@ def check_position_loops2(w, rep, RULE="C15.clamp", RA="C15.API"):
         f, I, O, parts, mod, W = got
         m_, g_ = mod.get("m"), mod.get("g")
         inst = "%s: feedback term is if_else(|u| > L, L u/|u|, u) with L = 0.3 m g" % key
-        if parts is None:
+        if parts == "reversed":
+            rep.fail(RULE, inst, "the limited branch is -L u/|u|: once the limit is active the feedback force points AWAY from the set-point", where=W)
+        elif parts is None:
             rep.fail(RULE, inst, "the PD term of the demanded force is not norm-limited (no common if_else(L < |u|, L u/|u|, u) over its three components)", where=W)
         else:
             L, us, rests = parts
@@ -295,6 +304,12 @@ def check_error_laws(w, rep):
             X, Xr = w.elem(G, cm.vertcat(p, v, q)), w.elem(G, cm.vertcat(pr, vr, qr))
             want = w.param(w.call(w.call(G, "product", w.call(X, "inverse"), Xr), "log"))
             verdict(rep, "C15.error", "se23_error: zeta = log(X^-1 X_r) on SE_2(3)", z, want, (), W, "SE_2(3) error is not log(X^-1 X_r)")
+            # sibling agreement, independent of the SE_2(3) group operations: the attitude part of zeta is the so(3) error
+            # log(q^-1 q_r) of the two attitude laws, built with the SO(3) quaternion product only
+            Xq, Xqr = w.elem(Q, q), w.elem(Q, qr)
+            e3 = w.param(w.call(w.call(Q, "product", w.call(Xq, "inverse"), Xqr), "log"))
+            verdict(rep, "C15.error", "se23_error: attitude part zeta[6:9] = log(q^-1 q_r), the error of the so(3) laws", w.sl(z, 6, 9), e3, (), W,
+                    "the attitude part of the SE_2(3) error is not the rotation vector of q^-1 q_r (e.g. the rotations are composed in the other order: R e instead of e)")
 
 
 def check_sign_independence(w, rep):
